@@ -33,7 +33,7 @@ def main():
             # the proof obligation regenerated from the source no longer checks
             ctx.broken.insert(0, {"kind": "proof-obligation-broken",
                                   "what": "lake build fails on the obligation regenerated from the Python source",
-                                  "theorem": "Pta.C12.generated_flags_agree (PtaProofs/Props/Tables.lean) over lean/Generated/Flags.lean",
+                                  "theorem": "Pta.C12.generated_flags_agree / Pta.C13.generated_config_agree (PtaProofs/Props/Tables.lean) over lean/Generated/*.lean",
                                   "targets": lean["generated_broken"], "log": lean.get("build_log", "")[-1500:]})
         code = finish(ctx, lean, rule, getattr(mod, "ASSUMPTIONS", ()))
         print(f"[{prop}] tier={a.tier} seed={seed} evaluations={sum(s['evaluations'] for s in ctx.streams)} "
